@@ -108,6 +108,21 @@ class LexProbe:
         # syntax-significant characters are probed individually as well
         self.reps = sorted(set(self.reps) | set(self.EXTRA))
         self._cache: dict[str, object] = {}
+        # lexer modes: every parameter of tokenise after the source with a
+        # False default is a switch; mode 0 = all off, mode i = the i-th
+        # switch on alone (mode 1 is the one-character-variable mode today)
+        self.mode_names = ["default"]
+        fn = self.mod.functions.get("tokenise")
+        if fn is not None:
+            params = fn.args.args[1:]
+            defaults = fn.args.defaults[-len(params):] if params else []
+            if len(defaults) == len(params):
+                for a, d in zip(params, defaults):
+                    if isinstance(d, ast.Constant) and d.value is False:
+                        self.mode_names.append(a.arg)
+                    else:
+                        break
+        self.cur_mode = 0
         self.runs = 0
         self._facts()
 
@@ -184,14 +199,33 @@ class LexProbe:
         return set(self.groups[self.sig[ch]])
 
     # -- running the interpreted lexer ----------------------------------------------
-    def run(self, s: str, digraphs=False):
-        key = (s, digraphs)
+    def in_mode(self, mode: int):
+        """context manager: probes without an explicit mode run in `mode`"""
+        lp = self
+
+        class _M:
+            def __enter__(self):
+                self.old = lp.cur_mode
+                lp.cur_mode = mode
+
+            def __exit__(self, *a):
+                lp.cur_mode = self.old
+        return _M()
+
+    def run(self, s: str, digraphs=None):
+        mode = self.cur_mode if digraphs is None else int(digraphs)
+        key = (s, mode)
         if key in self._cache:
             return self._cache[key]
         self.it.steps = 0
         self.runs += 1
         try:
-            toks = self.tokenise(s, digraphs) if digraphs else self.tokenise(s)
+            if mode:
+                args = [False] * mode
+                args[mode - 1] = True
+                toks = self.tokenise(s, *args)
+            else:
+                toks = self.tokenise(s)
             res = [(t.d["name"].name, t.d["value"]) for t in toks]
         except PRaise as exc:
             res = ("RAISED", f"{exc.cls_name}{exc.pargs}")
@@ -224,10 +258,14 @@ class LexProbe:
         runs = [(s, False) for s in probes]
         if self.has_mode:
             runs += [(s, True) for s in probes if len(s) <= 2]
+        for m in range(2, len(self.mode_names)):
+            runs += [(s, m) for s in probes if len(s) <= 2]
         for s, mode in runs:
             r = self.run(s, mode)
             if isinstance(r, tuple):
-                self.raised.append((s + (" [V]" if mode else ""), r[1]))
+                self.raised.append((s + (" [V]" if mode is True else
+                                         f" [{self.mode_names[mode]}]"
+                                         if mode else ""), r[1]))
                 continue
             if s and r:
                 self.head_kinds.setdefault(s[0], set()).add(r[0][0])
